@@ -1,10 +1,10 @@
 CONSTANTS
   NUser = 2
-  Level = 0
-  MaxSteps = 2
+  Level = 3
+  MaxSteps = 0
   Deviations = {}
   Prov = "G"
-  FixedRoots = TRUE
+  FixedRoots = FALSE
 SPECIFICATION Spec
 INVARIANT TypeOK
 INVARIANT Refl
@@ -19,5 +19,3 @@ INVARIANT DistDefinedIffMaybeSub
 INVARIANT StrictImpliesMaybe
 INVARIANT OfferedCompatible
 INVARIANT ProvidersAgree
-INVARIANT CacheCoherent
-INVARIANT OfferedNowCompatible
